@@ -53,7 +53,7 @@ def run_case(case, ctx):
         if out != "ok":
             ctx.viol(f"start-refused:{out}", where)
             return
-        if not h.wait_quiescent(60):
+        if not h.wait_quiescent(20):
             ctx.viol("hang:run-did-not-reach-quiescence", {**where, "snapshot": h.snapshot()})
             return
         snap = h.snapshot()
